@@ -87,6 +87,31 @@ fn main() {
     // process differs from all later ones (its thread creates extra `RandomState`s), and a replay
     // in a fresh OS process would not see what a long-running check saw
     group_sim::warm_up();
+    // a repaired defect must stay repaired: the recorded world of every `fixed` entry of this
+    // property is replayed first (a fixed entry suppresses nothing)
+    let mut regressed: Vec<String> = vec![];
+    if matches!(cmd.as_str(), "C06" | "C07" | "C11" | "C13" | "C14" | "C20") {
+        for k in load_known_findings().iter().filter(|k| k.kind == "fixed" && k.property == cmd) {
+            for rp in &k.replays {
+                let p = verif_dir().join(rp);
+                let Ok(v) = read_json(&p) else { harness_error(&format!("fixed finding {}: replay file {} is missing or unreadable", k.id, rp)) };
+                FIXED_REPLAYED.fetch_add(1, std::sync::atomic::Ordering::Relaxed);
+                let ps = p.to_string_lossy().to_string();
+                let rc = match v["engine"].as_str().unwrap_or("") {
+                    "group" => c20::replay(&v, &ps, true),
+                    "runtime" => rt::replay(&v, &ps, true),
+                    "lockstep" => c14::replay(&v, &ps, true),
+                    "pairs" | "links" => c13::replay(&v, &ps, true),
+                    _ => 0,
+                };
+                if rc == 1 {
+                    FIXED_VIOLATING.fetch_add(1, std::sync::atomic::Ordering::Relaxed);
+                    println!("{} violation: the repaired defect {} is back ({})", cmd, k.id, k.what);
+                    regressed.push(ps);
+                }
+            }
+        }
+    }
     let code = match cmd.as_str() {
         "C20" => c20::check(&args),
         "C06" => rt::check(&args, gen::Prop::C06),
@@ -122,6 +147,33 @@ fn main() {
                 if let Ok(mut j) = rt::build_job(&world::world_to_json(&w), false) {
                     j["id"] = serde_json::json!(i);
                     println!("{}", j);
+                }
+            }
+            0
+        }
+        "gridworld" => {
+            // print explicit grid worlds (debugging aid): gridworld <C06|C11|C14> [substring]
+            let which = args.rest.first().cloned().unwrap_or_default();
+            let filter = args.rest.get(1).cloned().unwrap_or_default();
+            let n = match which.as_str() {
+                "C11" => grid::count11(),
+                "C14" => c14grid::count(),
+                _ => grid::count(),
+            };
+            for i in 0..n {
+                let w = match which.as_str() {
+                    "C11" => grid::world11(args.seed, i),
+                    "C14" => c14grid::world(args.seed, i),
+                    _ => grid::world(args.seed, i),
+                };
+                let g = w["grid"].to_string();
+                if filter.is_empty() {
+                    println!("{} {}", i, g);
+                } else if g.contains(&filter) {
+                    let mut w = w;
+                    w["property"] = serde_json::json!(which);
+                    println!("{}", w);
+                    break;
                 }
             }
             0
@@ -179,6 +231,13 @@ fn main() {
         },
         x => harness_error(&format!("unknown command {}", x)),
     };
+    let mut code = code;
+    if code == 0 || code == 1 {
+        for p in &regressed {
+            println!("VIOLATION property={} replay={}", cmd, p);
+            code = 1;
+        }
+    }
     std::process::exit(code);
 }
 
